@@ -54,6 +54,9 @@ struct Model {
     unknown: bool,
     /// arrays of which the model does not know whether they exist (negative subscript on first use)
     unk_dims: std::collections::BTreeSet<String>,
+    /// scalars whose value the model does not know (unsuffixed names across a DEFtype, and whatever
+    /// was SWAPped with one)
+    unk: std::collections::BTreeSet<String>,
 }
 
 impl Model {
@@ -107,7 +110,7 @@ impl Prop for C06 {
     }
 
     fn run_case(&mut self, _idx: u64, rng: &mut Rng, ctx: &mut Ctx) {
-        let mut m = Model { vals: BTreeMap::new(), dims: BTreeMap::new(), types: [1; 26], unknown: false, unk_dims: Default::default() };
+        let mut m = Model { vals: BTreeMap::new(), dims: BTreeMap::new(), types: [1; 26], unknown: false, unk_dims: Default::default(), unk: Default::default() };
         let mut s = Session::new();
         s.drain(8);
         let mut script: Vec<String> = vec![];
@@ -123,6 +126,10 @@ impl Prop for C06 {
                     let (name, code) = SCALARS[rng.usize(SCALARS.len())];
                     let ty = m.ty(name, code);
                     let give_str = if rng.chance(1, 6) { ty != 3 } else { ty == 3 };
+                    if give_str == (ty == 3) {
+                        // the assignment will succeed: the value is known again
+                        m.unk.remove(name);
+                    }
                     next_val += 1;
                     if give_str {
                         let v = format!("s{}", next_val);
@@ -234,6 +241,11 @@ impl Prop for C06 {
                     };
                     m.vals.retain(|k, _| suffixed(k));
                     m.unknown = true;
+                    for (n, c) in SCALARS.iter() {
+                        if *c == 9 {
+                            m.unk.insert(n.to_string());
+                        }
+                    }
                     if a == b {
                         format!("{} {}", kw, a)
                     } else {
@@ -243,12 +255,18 @@ impl Prop for C06 {
                 9 | 10 => {
                     let (n1, c1) = SCALARS[rng.usize(SCALARS.len())];
                     let (n2, c2) = SCALARS[rng.usize(SCALARS.len())];
-                    if m.unknown && (c1 == 9 || c2 == 9) {
-                        // values of unsuffixed names are unknown to the model right now
-                        format!("{}={}", "B%", { m.vals.insert("B%".into(), MV::N(5.0)); 5 })
-                    } else {
+                    {
+                        // (values of unsuffixed names may be unknown to the model after a DEFtype: they are
+                        // absent from `vals` and skipped at read-back until reassigned; the types are known)
                         let (t1, t2) = (m.ty(n1, c1), m.ty(n2, c2));
                         if t1 == t2 {
+                            let (u1, u2) = (m.unk.remove(n1), m.unk.remove(n2));
+                            if u2 {
+                                m.unk.insert(n1.to_string());
+                            }
+                            if u1 {
+                                m.unk.insert(n2.to_string());
+                            }
                             let v1 = m.vals.remove(n1);
                             let v2 = m.vals.remove(n2);
                             if n1 != n2 {
@@ -275,6 +293,7 @@ impl Prop for C06 {
                 m.types = [1; 26];
                 m.unknown = false;
                 m.unk_dims.clear();
+                m.unk.clear();
             }
             script.push(stmt.clone());
             let text = script.join("\n");
@@ -336,7 +355,8 @@ impl Prop for C06 {
             if step % 4 == 3 || step == n - 1 {
                 let mut refs: Vec<(String, u8)> = vec![];
                 for (name, code) in SCALARS.iter() {
-                    if *code == 9 && m.unknown && !m.vals.contains_key(*name) {
+                    let _ = code;
+                    if m.unk.contains(*name) {
                         continue;
                     }
                     refs.push((name.to_string(), m.ty(name, *code)));
